@@ -246,8 +246,10 @@ class LiteralMarshaller(AbstractMarshaller[LiteralT], tp.Generic[LiteralT]):
         Raises:
             ValueError: If `val` is not a member of the bound `Literal` type.
         """
-        if val in self.values:
-            return val  # type: ignore[return-value]
+        # Emit the declared literal, not whatever compared equal to it (e.g., a subclass instance).
+        for literal in self.values:
+            if literal == val:
+                return literal
 
         raise ValueError(f"{val!r} is not one of {self.values!r}")
 
